@@ -20,7 +20,8 @@
 //            (as in tests/t-vsshe.cc, t-vrhe.cc)
 // Bounds: quick kappa=2, stacks of 3 cards, n=3 (shuffle); thorough adds kappa=4, stacks of 5, n=5.
 // Mutations: every line / inner field: delete, duplicate, empty, non-digit, negated, 0, 1, count limits, p, q, 20000-bit,
-//   over-long; truncation at every field; pairs of fields set to {0, p, negated} within a window of 4 fields;
+//   over-long; truncation at every field; pairs of fields set to {0, 1, negated, p, q, p-1} within a window of 4 fields (the
+//   combinations (0|1|p|q|p-1) x negated are never thinned);
 //   byte level (truncate, flip bit 0/7) at every offset of transcripts <= 600 bytes (quick) / 4096 bytes (thorough).
 // Oracle: outcome in {refused, accepted, std::exception}; anything else is a violation (see c12_common.hh).
 #include "c12_common.hh"
@@ -100,6 +101,13 @@ static void build_world(size_t n)
 	W.h = b62(v->h);
 	W.specials.clear();
 	W.specials.push_back(W.p), W.specials.push_back(W.q);
+	{
+		mpz_t t;
+		mpz_init(t);
+		mpz_sub_ui(t, v->p, 1);
+		W.specials.push_back(b62(t));   // p-1: the element of order 2
+		mpz_clear(t);
+	}
 	W.n = n;
 	with_coins(8, [&]() {
 		GrothVSSHE vs(n, v->p, v->q, v->k, v->g, v->h, LE, FS, GS);
